@@ -183,7 +183,22 @@ func genHist(f focus) func(t *rapid.T) histCase {
 			}
 		}
 		maxOps := ev.Scale(24, 60)
-		c.Ops = append(c.Ops, rapid.SliceOfN(genOp(f, gated), 1, maxOps).Draw(t, "ops")...)
+		ops := rapid.SliceOfN(genOp(f, gated), 1, maxOps).Draw(t, "ops")
+		c.Persist = rapid.Bool().Draw(t, "persist")
+		if c.Persist {
+			// block boundaries between the steps, so that imports, blacklist / whitelist operations, quits and
+			// re-registrations meet records that an earlier block has already written to the store
+			c.Ops = append(c.Ops, opDef{K: "blk"})
+			cut := rapid.SliceOfN(rapid.IntRange(0, 2), len(ops), len(ops)).Draw(t, "blockcuts")
+			for i, op := range ops {
+				c.Ops = append(c.Ops, op)
+				if cut[i] == 0 {
+					c.Ops = append(c.Ops, opDef{K: "blk"})
+				}
+			}
+		} else {
+			c.Ops = append(c.Ops, ops...)
+		}
 		return c
 	}
 }
@@ -199,7 +214,7 @@ func runHist(f focus) func(ctx *ev.Ctx, c histCase) {
 const domainText = "cases: main-net L1 world with 2..7 consensus validators; a pool of 2..6 chains (routers vote, ripple-vote, eth, quorum, bsc, heco, pixie, hsc, bytom, " +
 	"or a destination-only account-based router) and 1..6 messages drawn so that cross-chain ids collide; a history of up to 24 (thorough 60) operations: " +
 	"registerSideChain/approve/quit flows, registerAsset, syncGenesisHeader (trust root / Istanbul validator set of a synthetic EVM chain built with go-ethereum tries), BlackChain/WhiteChain, " +
-	"block/height changes and imports (votes one by one or to quorum; eth_getProof-style proofs; quorum: sealed Istanbul header with the import). Every transaction's outcome and complete state delta is compared with the model. "
+	"block/height changes (in half of the cases every block change flushes the block layer into the store, so later blocks overwrite/delete persisted records) and imports (votes one by one or to quorum; eth_getProof-style proofs; quorum: sealed Istanbul header with the import). Every transaction's outcome and complete state delta is compared with the model. "
 
 func TestC20(t *testing.T) {
 	ev.Drive(t, "C20", domainText+
